@@ -74,8 +74,10 @@ func (littleEndian) Uint32(b []byte) uint32 { panic(0) }
 func (bigEndian) PutUint32(b []byte, v uint32) { panic(0) }
 func (bigEndian) Uint32(b []byte) uint32 { panic(0) }`,
 	"crypto/sha256": `package sha256
+import "hash"
 const Size = 32
-func Sum256(data []byte) [Size]byte { panic(0) }`,
+func Sum256(data []byte) [Size]byte { panic(0) }
+func New() hash.Hash { panic(0) }`,
 	"crypto/sha512": `package sha512
 import "hash"
 func New() hash.Hash { panic(0) }`,
@@ -144,7 +146,9 @@ func (l *List) Len() int { panic(0) }
 func (l *List) Back() *Element { panic(0) }
 func (l *List) Front() *Element { panic(0) }`,
 	"golang.org/x/crypto/ripemd160": `package ripemd160
-const Size = 20`,
+import "hash"
+const Size = 20
+func New() hash.Hash { panic(0) }`,
 	"github.com/kkdai/bstream": `package bstream
 type BStream struct{ opaque int }
 func (b *BStream) ReadBit() (bool, error) { panic(0) }
